@@ -661,7 +661,8 @@ def check_property(prop, tier, seed):
         violations.append(('T-gen: translator refused the current source', {'tie': 'T-gen', 'detail': gen_broken}))
     if build_broken is not None:
         violations.append(('proof obligation no longer checks after regeneration', {'tie': 'lake build Hub.Props.' + prop, 'detail': build_broken}))
-    for m in rel[:3]:
+    # report at most three disagreements, those that are by themselves failing inputs first
+    for m in sorted(rel, key=lambda m: 0 if concrete_failure(prop, m) else 1)[:3]:
         body = {'tie': 'T-corr', 'mismatch': m}
         if concrete_failure(prop, m):
             body['failing_input'] = m['op']
@@ -985,6 +986,13 @@ def main():
         if a.setup:
             return setup()
         if a.replay:
+            # rebuild the harness (and the driver) from /repo's current tree first: a replay is about this tree
+            okh, hmsg = build_harness()
+            if not okh:
+                raise Broken('harness does not build against /repo: ' + hmsg)
+            okd, dout = lake_build(['hubmodel'])
+            if not okd:
+                raise Broken('model driver does not build: ' + dout[-1500:])
             from replay import replay
             return replay(a.property, a.replay)
         if a.property not in PROPS:
